@@ -220,10 +220,15 @@ Definition main_settings (cwd : str) (argv : list str) (sfile user : option sour
                    :: (match sfile with Some x => [x] | None => [] end)
                    ++ (match user with Some x => [x] | None => [] end)
                    ++ [{| src_kind := SrcDefaults; src_vals := yaml_defaults; src_dir := None |}] in
+      (* the order of main(): template validation, then the rst.headers check (a mapping is
+         rejected by main() itself), then the exclude-filter loop; all three are confuse errors *)
       match settings_of cwd stack template,
             all_contents stack (s"input.exclude_filters") with
       | Some st, Some ex =>
-          L [I 0%N; e_list (e_pair e_str e_cval) st; e_list e_yval ex; e_list e_str (p_positional p)]
+          if headers_ok stack
+          then L [I 0%N; e_list (e_pair e_str e_cval) st; e_list e_yval ex;
+                  e_list e_str (p_positional p)]
+          else L [I 1%N]                    (* ConfigTypeError raised by main(): rst.headers is a mapping *)
       | _, _ => L [I 1%N]                   (* confuse error *)
       end
   end.
